@@ -258,7 +258,12 @@ i_SUBI = i_SUBIH = i_SUB
 
 @__npc
 def i_RSUB(ins, fmap):
-    dst, src1, src2 = ins.operands
+    if len(ins.operands) == 1:
+        # 16-bit form RSUB D[a]: D[a] = 0 - D[a]
+        dst = src1 = ins.operands[0]
+        src2 = cst(0, dst.size)
+    else:
+        dst, src1, src2 = ins.operands
     result,carry,overflow = SubWithBorrow(fmap(src2),fmap(src1))
     fmap[dst] = result
     fmap[V] = overflow
